@@ -688,6 +688,10 @@ def normalise(t):
     h = t[0] if t else None
     if h == "Err":
         return ("Err",)
+    if h == "if" and len(t) == 4 and t[1] in (("lit", "true", "bool"), ("lit", "false", "bool")):
+        # a literal condition (this is what `cfg!(..)` / `debug_assert!` leave behind in the analysed configuration):
+        # only the live branch is behaviour.  The dead branch is the business of premises.profile_const.
+        return t[2] if t[1][1] == "true" else t[3]
     if h == "errmsg":
         return ("errmsg",)
     if h == "call" and isinstance(t[1], str) and t[1].endswith("iter::Extend>::extend") and len(t) == 4 and _is(t[3], "call") and t[3][1] == "iter::from_fn" and len(t[3]) == 3 \
